@@ -55,6 +55,7 @@ type Ctx struct {
 	fsMemo         map[string]bool
 	cfgMemo        *bool
 	exprMemo       *bool
+	retMemo        *bool
 }
 
 // LoadOpts selects the build configuration and an optional overlay.
